@@ -165,10 +165,13 @@ public:
             if (this != &rhs) {
                 if (_box) {
                     if (_recycle) _box->reset();
+                    // drop the reference under maplock: once the count is
+                    // zero __expire() may free the box, so it must not be
+                    // touched after an unlocked release
+                    SCOPED_LOCK(_oc->maplock);
                     _box->release();
                     VERIF_POINT(P_OBJCACHEV2_RELEASE);
                     if (_box->rc == 0) {
-                        SCOPED_LOCK(_oc->maplock);
                         _oc->lru_list.pop(_box);
                         _oc->lru_list.push_back(_box);
                     }
@@ -188,10 +191,13 @@ public:
             if (_recycle) {
                 _box->reset();
             }
+            // drop the reference under maplock: once the count is zero
+            // __expire() may free the box, so it must not be touched after
+            // an unlocked release
+            SCOPED_LOCK(_oc->maplock);
             _box->release();
             VERIF_POINT(P_OBJCACHEV2_RELEASE);
             if (_box->rc == 0) {
-                SCOPED_LOCK(_oc->maplock);
                 _oc->lru_list.pop(_box);
                 _oc->lru_list.push_back(_box);
             }
